@@ -1,12 +1,14 @@
 /-
   C14 — Exclusions are reported and equal to deleting the excluded items.
-  Property theorems only; helper lemmas live in Gama/Lemmas/Revise.lean.
+  Property theorems only; helper lemmas live in Gama/Lemmas/Revise*.lean.
 
   Model: Gama/Model/Revise.lean (hand) over Gama/Gen/Revision.lean (REGENERATED from
   local_revision.{h,cpp}, network.{h,cpp}, float.h).  Specification tables the generated code is
   compared with: Gama/Model/ReviseSpec.lean.
 -/
-import Gama.Lemmas.Revise
+import Gama.Lemmas.ReviseView
+import Gama.Lemmas.ReviseField
+import Mathlib.Analysis.SpecialFunctions.Sqrt
 namespace Gama.Props.C14
 open Gama Gama.Rev
 
@@ -22,20 +24,127 @@ variable {K : Type}
 theorem C14_revise_idempotent (n : Net K) : revise (revise n) = { revise n with undefined := [] } :=
   revise_revise n
 
-/-! ## equal to deleting the excluded items -/
+/-! ## equal to deleting the excluded items
 
-/-- What the linearisation reads (points taking part with statuses and coordinates; per non-empty
-    cluster its kind and its active observations, in order) is the same for the input and for the
-    input with the excluded items deleted (`delete`: unused coordinate groups lose their status,
-    points with nothing left disappear, passive observations and emptied clusters disappear). -/
-theorem C14_equals_deletion (n : Net K) : activeView (revise n) = activeView (revise (delete n)) :=
-  (activeView_delete n).symm
+`deleteItems n e` is defined on the INPUT `n` from position flags `e` alone (no revision is run):
+flagged coordinate groups lose their status, points with nothing left go, flagged observations go
+together with their rows and columns of the cluster's covariance matrix (principal sub-matrix),
+emptied clusters go.  `excluded r` reads the flags off a state `r`.  `adjustmentView` is what
+`project_equations()` and `prepareProjectEquations()` read: points taking part (status, coordinates),
+per non-empty cluster its kind, its active observations in order and the block `activeCov()`. -/
+
+/-- Revision: the state after `revise` shows the adjustment exactly what the revised deleted input
+    shows, and on the deleted input the revision finds nothing further to exclude: no status and no
+    flag changes, nothing is recorded in `removed_points`, nothing in `rejected_observations()`. -/
+theorem C14_equals_deletion_independent (n : Net K) :
+    let d := deleteItems n (excluded (revise n))
+    adjustmentView (revise n) = adjustmentView (revise d) ∧
+    activeView (revise n) = activeView (revise d) ∧
+    (revise d).pts = d.pts ∧ (revise d).cls.map (·.obs) = d.cls.map (·.obs) ∧
+    (revise d).removed = [] ∧ (revise d).rejected = [] := by
+  intro d
+  have hd : d = deleteItems (revise n) (excluded (revise n)) := deleteItems_evolved n _ (evolved_revise n)
+  have h := revise_deleteItems_self (revise n) (settled_revise n)
+  simp only at h
+  rw [← hd] at h
+  exact ⟨h.1.symm, (activeView_of_adjustmentView _ _ h.1).symm, h.2⟩
+
+/-- The same including the observations removed for their absolute terms: `exclude` = revision,
+    `remove_huge_abs_terms()`, and the `revision_observations()` its `update(Observations)` triggers
+    (which may silence a station left with fewer than two targets).  `rhs`, `bh` (the absolute
+    terms and the homogenised member `b`) are arbitrary. -/
+theorem C14_equals_deletion_independent_abs [Scalar K] (n : Net K) (tol : K) (rhs bh : List K) :
+    let r := exclude n tol rhs bh
+    let d := deleteItems n (excluded r)
+    adjustmentView r = adjustmentView (revise d) ∧
+    activeView r = activeView (revise d) ∧
+    (revise d).pts = d.pts ∧ (revise d).cls.map (·.obs) = d.cls.map (·.obs) ∧
+    (revise d).removed = [] ∧ (revise d).rejected = [] := by
+  intro r d
+  have hd : d = deleteItems r (excluded r) := deleteItems_evolved n _ (evolved_exclude n tol rhs bh)
+  have h := revise_deleteItems_self r (settled_exclude n tol rhs bh)
+  simp only at h
+  rw [← hd] at h
+  exact ⟨h.1.symm, (activeView_of_adjustmentView _ _ h.1).symm, h.2⟩
+
+/-! ### "the results are a function of the view"
+
+`project_equations()` walks the clusters and, inside a cluster, `revised_obs_` (= the active
+observations in order); each step hands out unknown indices, appends a row and a right-hand side; what
+it reads of the network is the observation, the cluster kind / orientation slot, and `PD[role]` for the
+roles of the observation (the regenerated requirement table lists the roles looked up).  `assemble step
+loc init` is that loop for an ARBITRARY step function (C05's regenerated linearisation is one instance).
+The covariance blocks are `Cluster::activeCov()`, C10's `Cov.activeCov`. -/
+
+/-- For every step function: the assembly loop on a revised state equals the loop run on its active
+    view alone (points that take part; non-empty clusters with their active observations). -/
+theorem C14_assembly_reads_active_view {σ τ : Type}
+    (step : σ × τ → Obs K → List (Option (Pt K)) → σ × τ) (loc : Bool → τ) (init : σ) (n : Net K) :
+    assemble step loc init (revise n) = assembleView step loc init (activeView (revise n)) :=
+  assemble_eq_view step loc init (revise n) (fun c hc => ((settled_revise n).2 c hc).1)
+
+/-- The block `Cluster::activeCov()` returns for a cluster (C10's model of the C++ copy loop on the
+    packed band storage, all band widths) has the entries of `covView`, i.e. of the principal
+    sub-matrix on the active observations, which by `C14_equals_deletion_independent` is the whole
+    covariance matrix of the deleted cluster. -/
+theorem C14_active_cov_is_view [Zero K] (cm : Cov.CovMat K) (fl : List Bool) :
+    let R := Cov.activeCov cm (fl.map fun a => ⟨a, 1⟩)
+    let V := covView (fun i j => cm.get i j) fl
+    R.WF ∧ R.dim = V.length ∧
+    ∀ i j, 1 ≤ i → i ≤ R.dim → 1 ≤ j → j ≤ R.dim → R.get i j = (V.getD (i - 1) []).getD (j - 1) 0 := by
+  intro R V
+  obtain ⟨hw, hd, _, hget⟩ := Cov.activeCov_submatrix cm (fl.map fun a => ⟨a, 1⟩)
+  simp only [activeIdx_eq_keptIdx, List.size_toArray] at hd hget
+  have hV : V.length = (keptIdx (fl.map (!·))).length := by simp [V, covView]
+  refine ⟨hw, by rw [hV]; exact hd, ?_⟩
+  intro i j hi1 hi hj1 hj
+  have hi' : i ≤ (keptIdx (fl.map (!·))).length := by rw [← hd]; exact hi
+  have hj' : j ≤ (keptIdx (fl.map (!·))).length := by rw [← hd]; exact hj
+  rw [hget i j hi1 hi' hj1 hj', covView_entry _ 0 fl i j hi1 hi' hj1 hj']
+  simp [List.getD_eq_getElem?_getD]
+
+/-- Hence: whatever is computed by the assembly loop (design matrix, right-hand side, unknowns) from
+    the state after the exclusions equals what the same loop computes from the revised deleted input;
+    and `adjust`, ANY function of that and of the covariance blocks, gives equal results.  What is NOT
+    proved here and stays a named hypothesis of the end-to-end claim: that gama's linearisation visitor
+    and solver are such a step function / such a function (C05, C01; checked numerically by the oracle). -/
+theorem C14_results_equal_deletion [Scalar K] {σ τ ρ : Type}
+    (step : σ × τ → Obs K → List (Option (Pt K)) → σ × τ) (loc : Bool → τ) (init : σ)
+    (adjust : σ → List (List (List K)) → ρ) (n : Net K) (tol : K) (rhs bh : List K) :
+    let r := exclude n tol rhs bh
+    let d := revise (deleteItems n (excluded r))
+    adjust (assemble step loc init r) ((adjustmentView r).2.map (·.2.2)) =
+    adjust (assemble step loc init d) ((adjustmentView d).2.map (·.2.2)) := by
+  intro r d
+  obtain ⟨h1, h2, _⟩ := C14_equals_deletion_independent_abs n tol rhs bh
+  have e1 := assemble_eq_view step loc init r (fun c hc => ((settled_exclude n tol rhs bh).2 c hc).1)
+  have e2 := assemble_eq_view step loc init d (fun c hc => ((settled_revise _).2 c hc).1)
+  rw [e1, e2]
+  show adjust (assembleView step loc init (activeView r)) _ = adjust (assembleView step loc init (activeView d)) _
+  rw [show activeView r = activeView d from h2, show adjustmentView r = adjustmentView d from h1]
+
+/-! ## what is excluded, and why -/
 
 /-- The generated requirement table of `LocalRevision` says exactly what the specification says:
     an observation survives iff every role is a point of the network, the coordinate groups its
     geometry reads are known and the groups that must take part are active. -/
 theorem C14_requirements_are_spec (pts : List (Pt K)) (o : Obs K) : reqOk pts o = Spec.usable pts o :=
   reqOk_eq_usable pts o
+
+/-- SOUND AND COMPLETE.  A revision maps every observation of a cluster by one function `g`, and the
+    result is passive **iff** the observation was passive already, or is not usable (specification
+    tables over the regenerated requirement table: a role is not a point of the network, a coordinate
+    group its geometry reads is unknown, a group that must take part does not), or it is a direction
+    of a `StandPoint` cluster whose active usable directions have fewer than two distinct targets
+    (`Spec.usableTargets`, counted on the input). -/
+theorem C14_excluded_iff_reason (pts : List (Pt K)) (c : Cluster K) :
+    ∃ g : Obs K → Obs K, (reviseCl pts c).obs = c.obs.map g ∧
+      ∀ o, (g o).active = false ↔
+        (o.active = false ∨ Spec.usable pts o = false ∨
+         (c.stand = true ∧ o.ty = .direction ∧ Spec.usableTargets pts c.obs < 2)) := by
+  refine ⟨_, reviseCl_obs pts c, fun o => ?_⟩
+  rw [← distinctTargets_localRev]
+  exact ⟨passive_reason pts c o, reason_passive pts c o⟩
 
 /-! ## every exclusion is recorded -/
 
@@ -70,112 +179,142 @@ theorem C14_reported_observations (n : Net K) :
    (counts_revise n).1, (counts_revise n).2,
    fun c hc => actObs_revise n c hc⟩
 
-/-- The code paths of a revision that set an observation passive, enumerated: each observation of a
-    cluster is mapped by `LocalRevision::visit` and, in a `StandPoint` cluster whose active
-    directions have fewer than two distinct targets, by `set_passive` on directions; an observation
-    that comes out passive was passive already, or is not usable (specification), or is a direction
-    of such a station. -/
-theorem C14_passive_reasons (pts : List (Pt K)) (c : Cluster K) :
-    ∃ g : Obs K → Obs K, (reviseCl pts c).obs = c.obs.map g ∧
-      ∀ o, (g o).active = false →
-        o.active = false ∨ Spec.usable pts o = false ∨
-        (c.stand = true ∧ o.ty = .direction ∧ distinctTargets (c.obs.map (localRev pts)) < 2) :=
-  ⟨_, reviseCl_obs pts c, fun o h => passive_reason pts c o h⟩
-
 /-! ## absolute terms -/
-
-section abs
-variable [Scalar K]
 
 /-- The generated `TestAbsTermVisitor` formulas are the specified positional misclosures
     (millimetres; angular: `|b·d/(10·R2G)|`, d horizontal, slope distance for zenith angles; linear:
     `|computed − observed|·1000`), and `d0` is the horizontal distance station–target. -/
-theorem C14_abs_formula_is_spec (t : ObsType) (c : AbsCtx K) (a b : Bool) :
+theorem C14_abs_formula_is_spec [Scalar K] (t : ObsType) (c : AbsCtx K) (a b : Bool) :
     Gen.absValue t c = Spec.misclosure t c ∧ Gen.absD0 a b c = Spec.d0 a b c :=
   ⟨absValue_eq_spec t c, absD0_eq_spec a b c⟩
 
-/-- `remove_huge_abs_terms` treats the k-th revised observation with the k-th entry of the vector,
-    and makes it passive **iff** its positional misclosure exceeds `tol_abs` — strictly, the boundary
-    value stays — (and the entry is not the literal 0, C++ `if (double)`).
-    `h0`: the literal `0` compares equal to itself in the scalar type.
-    PARTIAL with respect to the property: the misclosure is evaluated on the entry `b` of the vector
-    the code *consults*; see `C14_abs_term_iff` and `C14_abs_vec_rhs_or_defect` for which one. -/
-theorem C14_abs_term_iff_partial (h0 : Scalar.beq (Scalar.ofNat 0 : K) (Scalar.ofNat 0) = true)
-    (pts : List (Pt K)) (tol : K) :
-    (∀ (os : List (Obs K)) (v : List K),
-      (markObs pts tol os v).1 = (Spec.pairUp os v).map (Spec.applyMark pts tol)) ∧
-    (∀ (o : Obs K) (b : K), o.active = true →
-      ((Spec.applyMark pts tol (o, some b)).active = false ↔
-        (tol < Spec.misclosure o.ty (absCtx pts o b)) ∧ Scalar.beq b (Scalar.ofNat 0) = false)) := by
-  refine ⟨fun os v => markObs_eq pts tol os v, fun o b ha => ?_⟩
-  rw [← outlying_iff h0 pts tol o b]
-  unfold Spec.applyMark
-  cases h : outlying pts tol o b <;> simp [ha, h]
+section field
+variable {F : Type} [Field F] [LinearOrder F] [IsStrictOrderedRing F] (sq : F → F)
 
-/-- Full statement for the code that hands `rhs_` (the absolute terms) to the visitor: gate and
-    removal consult the same vector `rhs`, so an observation is excluded exactly when the positional
-    misclosure of its absolute term exceeds `tol_abs`. -/
-theorem C14_abs_term_iff (h0 : Scalar.beq (Scalar.ofNat 0 : K) (Scalar.ofNat 0) = true)
-    (n : Net K) (tol : K) (rhs bh : List K) :
-    (removeHugeWith .rhs n tol rhs bh).cls =
-        (if hugeFlag n tol rhs then markCls n.pts tol n.cls rhs else n.cls) ∧
-    (hugeFlag n tol rhs = true ↔ ∃ ob ∈ n.revised.zip rhs,
-        (tol < Spec.misclosure ob.1.ty (absCtx n.pts ob.1 ob.2)) ∧ Scalar.beq ob.2 (Scalar.ofNat 0) = false) := by
-  constructor
-  · unfold removeHugeWith consultedOf
+/-- Homogenisation as coded for an observation without correlations (`prepareProjectEquations`:
+    `C = stdev²/(m0·m0)`, `Adj::choldec` → `sqrt C`, forward substitution → `b/sqrt C`) multiplies the
+    absolute term by the weight factor `m0/stdev` (= `sqrt(weight_obs)`), over any ordered field whose
+    `sqrt` inverts squaring on the non-negatives. -/
+theorem C14_homogenisation_uncorrelated (hsq : ∀ x : F, 0 ≤ x → sq (x * x) = x) (m0 : F) (hm : 0 < m0)
+    (stdevs rhs : List F) (hs : ∀ s ∈ stdevs, 0 < s) :
+    letI : Scalar F := fsc sq
+    homDiag m0 stdevs rhs = List.zipWith (fun s r => r * weightFactor m0 s) stdevs rhs :=
+  homDiag_eq sq hsq m0 hm stdevs rhs hs
+
+/-- **The tree's test, exactly** (`Gen.absVec`, the comparison operator and the formulas are
+    regenerated; all networks, all vectors).
+    (1) `remove_huge_abs_terms()` does nothing unless the gate is open, else it walks the clusters with the
+        CONSULTED vector (`consulted rhs bh` = the member `b`, homogenised by then, as the tree reads now);
+    (2) the gate `huge_abs_terms()` was computed from the absolute terms: open iff some revised
+        observation has a positional misclosure beyond `tol_abs` and a non-zero term;
+    (3) inside a cluster the k-th active observation is paired with the next entry;
+    (4) an active observation whose absolute term is `r` and whose consulted entry is `r·f`,
+        `f = consultedFactor Gen.absVec w` (`w = m0/stdev > 0` for an uncorrelated observation,
+        `C14_homogenisation_uncorrelated`), becomes passive **iff**
+        `tol_abs < f · misclosure(r)` for direction / angle / azimuth / zenith angle,
+        `tol_abs < misclosure(r)` for the other types, and `r ≠ 0` (strict: the boundary stays). -/
+theorem C14_abs_term_tree_iff :
+    letI : Scalar F := fsc sq
+    (∀ (n : Net F) (tol : F) (rhs bh : List F),
+      (removeHuge n tol rhs bh).cls =
+        if hugeFlag n tol rhs then markCls n.pts tol n.cls (consulted rhs bh) else n.cls) ∧
+    (∀ (n : Net F) (tol : F) (rhs : List F),
+      hugeFlag n tol rhs = true ↔ ∃ ob ∈ n.revised.zip rhs,
+        tol < Spec.misclosure ob.1.ty (absCtx n.pts ob.1 ob.2) ∧ ob.2 ≠ 0) ∧
+    (∀ (pts : List (Pt F)) (tol : F) (os : List (Obs F)) (v : List F),
+      (markObs pts tol os v).1 = (Spec.pairUp os v).map (Spec.applyMark pts tol)) ∧
+    (∀ (pts : List (Pt F)) (tol : F) (o : Obs F) (r w : F), o.active = true → 0 < w →
+      ((Spec.applyMark pts tol (o, some (r * Spec.consultedFactor Gen.absVec w))).active = false ↔
+        tol < (if Spec.angular o.ty then Spec.consultedFactor Gen.absVec w else 1) *
+                Spec.misclosure o.ty (absCtx pts o r) ∧ r ≠ 0)) := by
+  letI : Scalar F := fsc sq
+  refine ⟨?_, ?_, ?_, ?_⟩
+  · intro n tol rhs bh
+    unfold removeHuge removeHugeWith consulted
     split <;> rfl
-  · unfold hugeFlag
+  · intro n tol rhs
+    unfold hugeFlag
     rw [List.any_eq_true]
     constructor
     · rintro ⟨ob, hob, h⟩
-      exact ⟨ob, hob, (outlying_iff h0 n.pts tol ob.1 ob.2).mp h⟩
+      exact ⟨ob, hob, (outlying_plain sq n.pts tol ob.1 ob.2).mp h⟩
     · rintro ⟨ob, hob, h⟩
-      exact ⟨ob, hob, (outlying_iff h0 n.pts tol ob.1 ob.2).mpr h⟩
+      exact ⟨ob, hob, (outlying_plain sq n.pts tol ob.1 ob.2).mpr h⟩
+  · intro pts tol os v
+    exact markObs_eq pts tol os v
+  · intro pts tol o r w ha hw
+    have hf : 0 < Spec.consultedFactor Gen.absVec w := by
+      unfold Spec.consultedFactor
+      cases Gen.absVec
+      · exact hw
+      · show (0 : F) < ((1 : ℕ) : F); simp
+    rw [← outlying_scaled sq pts tol o r _ hf]
+    unfold Spec.applyMark
+    cases h : outlying pts tol o (r * Spec.consultedFactor Gen.absVec w) <;> simp [ha, h]
 
-/-- For uncorrelated observations weighted with `stdev = sigma-apr` the homogenised vector equals the
-    absolute terms (`bh = rhs`); then the code as it is now (whatever vector it consults) does what
-    `C14_abs_term_iff` describes. -/
-theorem C14_abs_term_iff_unit_weights_partial (n : Net K) (tol : K) (rhs bh : List K) (h : bh = rhs) :
-    removeHuge n tol rhs bh = removeHugeWith .rhs n tol rhs bh := by
-  subst h
-  unfold removeHuge removeHugeWith consultedOf
-  cases Gen.absVec <;> rfl
+/-- **C14-F1 as a theorem.**  The property says "excluded iff the positional misclosure of the
+    absolute term exceeds tol-abs".  For an angular observation with a positive lever (distance to the
+    target) whose consulted entry carries the factor `f = consultedFactor Gen.absVec w`: the tree's
+    verdict is the property's verdict for every absolute term and every tolerance **iff** `f = 1` — with
+    the tree as it reads now (`Gen.absVec = .memberB`, `f = w = m0/stdev`) iff the observation's
+    standard deviation equals sigma-apr. -/
+theorem C14_F1_coincides_iff_unit_weight (pts : List (Pt F)) (o : Obs F) (w : F) (hw : 0 < w)
+    (ht : Spec.angular o.ty = true) :
+    letI : Scalar F := fsc sq
+    0 < Spec.lever o.ty (absCtx pts o 0) →
+    (((∀ r tol : F, outlying pts tol o (r * Spec.consultedFactor Gen.absVec w) = outlying pts tol o r) ↔
+        Spec.consultedFactor Gen.absVec w = 1) ∧
+     (Gen.absVec = .memberB → Spec.consultedFactor Gen.absVec w = w)) := by
+  letI : Scalar F := fsc sq
+  intro hl
+  have hf : 0 < Spec.consultedFactor Gen.absVec w := by
+    unfold Spec.consultedFactor
+    cases Gen.absVec
+    · exact hw
+    · show (0 : F) < ((1 : ℕ) : F); simp
+  refine ⟨scaled_test_coincides_iff sq pts o _ hf ht hl, ?_⟩
+  intro h
+  rw [h]
+  rfl
 
-end abs
+end field
 
-/-! ### the vector the code consults now
+/-! ### C14-F1: the witness with stdev ≠ sigma-apr
 
 `LocalNetwork::test_abs_term` hands the member `b` to the visitor.  Inside `project_equations()`
 (where the flag `huge_abs_terms()` is computed) `b` still equals `rhs_`; when `OutlyingAbsoluteTerms`
 and `remove_huge_abs_terms` call `test_abs_term` later, `prepareProjectEquations()` has already
-homogenised `b` by the Cholesky factor of the weight matrix (entry · sigma-apr / stdev for
-uncorrelated observations).  For angular observations the misclosure is computed from that entry.
-Witness (exact arithmetic, two directions A(0,0) → B(1,0), tol_abs = 1000 mm, sigma-apr 10):
-absolute terms 700000 cc (stdev 50, misclosure ≈ 1099.6 mm) and 300000 cc (stdev 1, ≈ 471.2 mm);
-homogenised 140000 and 3000000.  The first — beyond tol_abs — stays, the second — within — is removed.
-Replayed on gama-local: corpus/C14/f1-weighted-blunder.json (known finding C14-F1).  The one-line
-patch notes/proposed/C14-abs-term-rhs.diff (hand `rhs_` to the visitor) is not applied because it changes
-a pinned test; with it `Gen.absVec = .rhs` is regenerated and the first disjunct holds. -/
+homogenised `b` (entry · sigma-apr / stdev for uncorrelated observations,
+`C14_homogenisation_uncorrelated`).  Witness (exact arithmetic, two directions A(0,0) → B(1,0),
+tol_abs = 1000 mm, sigma-apr 10): absolute terms 700000 cc (stdev 50, weight factor 1/5, misclosure
+≈ 1099.6 mm) and 300000 cc (stdev 1, weight factor 10, ≈ 471.2 mm).  The first — beyond tol_abs —
+stays, the second — within — is removed.  Replayed on gama-local:
+corpus/C14/f1-weighted-blunder.json (known finding C14-F1).  The one-line patch
+notes/proposed/C14-abs-term-rhs.diff (hand `rhs_` to the visitor) is not applied because it changes a
+pinned test; with it `Gen.absVec = .rhs` is regenerated and the first disjunct holds. -/
 
 def witnessPts : List (Pt Rat) :=
   [{ id := 1, sxy := .fixed, sz := .unused, hxy := true, hz := false, x := 0, y := 0, z := 0 },
    { id := 2, sxy := .fixed, sz := .unused, hxy := true, hz := false, x := 1, y := 0, z := 0 }]
 def witnessObs : List (Obs Rat) :=
-  [{ ty := .direction, frm := 1, to := 2, fs := 0, active := true, value := 0 },
-   { ty := .direction, frm := 1, to := 2, fs := 0, active := true, value := 0 }]
+  [{ ty := .direction, frm := 1, «to» := 2, fs := 0, active := true, value := 0 },
+   { ty := .direction, frm := 1, «to» := 2, fs := 0, active := true, value := 0 }]
 def witnessNet : Net Rat :=
-  { pts := witnessPts, cls := [{ stand := true, obs := witnessObs, actObs := 2 }], removed := [],
+  { pts := witnessPts, cls := [{ stand := true, obs := witnessObs, actObs := 2, cov := fun i j => if i = j then 1 else 0 }], removed := [],
     undefined := [], revised := witnessObs, rejected := [], pocbod := 2, pocmer := 2 }
+/-- the homogenised vector of the witness: absolute terms times `weightFactor 10 stdev` -/
+def witnessBh : List Rat := List.zipWith (fun s r => r * weightFactor 10 s) [50, 1] [700000, 300000]
 
-/-- Either the code consults `rhs_` (then `C14_abs_term_iff` is about the code), or the property
-    fails on the witness: with the homogenised vector the observation whose positional misclosure
-    exceeds `tol_abs` stays and the one within `tol_abs` is removed. -/
-theorem C14_abs_vec_rhs_or_defect :
+/-- Either the tree consults `rhs_` (factor 1 for every observation), or the property fails on the
+    witness: with the homogenised vector the observation whose positional misclosure exceeds
+    `tol_abs` stays and the one within `tol_abs` is removed. -/
+theorem C14_F1_witness :
     Gen.absVec = .rhs ∨
-    ((removeHuge witnessNet 1000 [700000, 300000] [140000, 3000000]).cls.map (fun c => c.obs.map (·.active))
+    ((removeHuge witnessNet 1000 [700000, 300000] witnessBh).cls.map (fun c => c.obs.map (·.active))
         = [[true, false]] ∧
      (1000 : Rat) < Spec.misclosure .direction (absCtx witnessPts witnessObs[0] 700000) ∧
-     ¬ ((1000 : Rat) < Spec.misclosure .direction (absCtx witnessPts witnessObs[1] 300000))) := by
+     ¬ ((1000 : Rat) < Spec.misclosure .direction (absCtx witnessPts witnessObs[1] 300000)) ∧
+     weightFactor (10 : Rat) 50 ≠ 1 ∧ weightFactor (10 : Rat) 1 ≠ 1) := by
   first
     | exact Or.inl rfl
     | exact Or.inr (by decide +kernel)
@@ -190,28 +329,56 @@ def exNet : Net Rat :=
             { id := 2, sxy := .fixed, sz := .unused, hxy := true, hz := false, x := 3, y := 4, z := 0 },
             { id := 3, sxy := .free, sz := .unused, hxy := true, hz := false, x := 3, y := 0, z := 0 },
             { id := 4, sxy := .free, sz := .free, hxy := false, hz := false, x := 0, y := 0, z := 0 }],
-    cls := [{ stand := true, actObs := 0, obs :=
-              [{ ty := .direction, frm := 1, to := 2, fs := 0, active := true, value := 0 },
-               { ty := .direction, frm := 1, to := 3, fs := 0, active := true, value := 1 },
-               { ty := .distance, frm := 1, to := 3, fs := 0, active := true, value := 3 }] },
-            { stand := true, actObs := 0, obs :=
-              [{ ty := .direction, frm := 3, to := 1, fs := 0, active := true, value := 0 },
-               { ty := .distance, frm := 3, to := 2, fs := 0, active := true, value := 4 },
-               { ty := .distance, frm := 3, to := 9, fs := 0, active := true, value := 7 }] }],
+    cls := [{ stand := true, actObs := 0, cov := fun i j => if i = j then 1 else 0, obs :=
+              [{ ty := .direction, frm := 1, «to» := 2, fs := 0, active := true, value := 0 },
+               { ty := .direction, frm := 1, «to» := 3, fs := 0, active := true, value := 1 },
+               { ty := .distance, frm := 1, «to» := 3, fs := 0, active := true, value := 3 }] },
+            { stand := true, actObs := 0, cov := fun i j => if i = j then 1 else 0, obs :=
+              [{ ty := .direction, frm := 3, «to» := 1, fs := 0, active := true, value := 0 },
+               { ty := .distance, frm := 3, «to» := 2, fs := 0, active := true, value := 4 },
+               { ty := .distance, frm := 3, «to» := 9, fs := 0, active := true, value := 7 }] }],
     removed := [], undefined := [], revised := [], rejected := [], pocbod := 0, pocmer := 0 }
 
 example : (revise exNet).removed = [(4, 1), (4, 2)] := by decide
 example : (revise exNet).cls.map (fun c => c.obs.map (·.active)) = [[true, true, true], [false, true, false]] := by decide
 example : ((revise exNet).pocbod, (revise exNet).pocmer, (revise exNet).rejected.length) = (3, 4, 2) := by decide
 example : (revise exNet).cls.map (·.actObs) = [3, 1] := by decide
-example : (delete exNet).pts.map (·.id) = [1, 2, 3] ∧ (delete exNet).cls.map (fun c => c.obs.length) = [3, 1] := by decide
+/-- the flags read off the revised state, and the input with those items deleted -/
+example : excluded (revise exNet) =
+    { xy := [false, false, false, true], z := [true, true, true, true],
+      obs := [[false, false, false], [true, false, true]] } := by decide
+example : (deleteItems exNet (excluded (revise exNet))).pts.map (·.id) = [1, 2, 3] ∧
+    (deleteItems exNet (excluded (revise exNet))).cls.map (fun c => c.obs.length) = [3, 1] := by decide
 example : (activeView (revise exNet)).2.map (fun c => c.2.length) = [3, 1] := by decide
+/-- completeness, instance: station 3 has one usable direction target; its direction is passive -/
+example : exNet.cls.map (fun c => Spec.usableTargets exNet.pts c.obs) = [2, 1] := by decide
+/-- rows/columns of a correlated block: observations 1 and 3 of three stay -/
+example : covView (fun i j => (10 * i + j : Nat)) [true, false, true] = [[11, 13], [31, 33]] := by decide
+example : (deleteCl { stand := false, actObs := 0, cov := fun i j => (10 * i + j : Nat), obs :=
+      [{ ty := .distance, frm := 1, «to» := 2, fs := 0, active := true, value := 0 },
+       { ty := .distance, frm := 1, «to» := 3, fs := 0, active := true, value := 0 },
+       { ty := .distance, frm := 2, «to» := 3, fs := 0, active := true, value := 0 }] } [false, true, false]).cov 2 1 = 31 := by
+  decide
+/-- `C10`'s packed `activeCov` on a band-1 matrix of dimension 4 against `covView` -/
+example : (Cov.activeCov (K := Int) ⟨4, 1, #[4, 1, 5, 1, 6, 1, 7]⟩ ([true, false, true, true].map fun a => ⟨a, 1⟩)).toDense
+    = (covView (fun i j => (⟨4, 1, #[4, 1, 5, 1, 6, 1, 7]⟩ : Cov.CovMat Int).get i j) [true, false, true, true]).flatten := by
+  decide
 /-- boundary: a distance A(0,0) → B(1,0) observed as 2 m has misclosure exactly 1000 mm: it stays for
     `tol_abs = 1000` (strict comparison) and goes for `tol_abs = 999` -/
-example : outlying witnessPts (1000 : Rat) { ty := .distance, frm := 1, to := 2, fs := 0, active := true, value := 2 } 1 = false := by
+example : outlying witnessPts (1000 : Rat) { ty := .distance, frm := 1, «to» := 2, fs := 0, active := true, value := 2 } 1 = false := by
   decide +kernel
-example : outlying witnessPts (999 : Rat) { ty := .distance, frm := 1, to := 2, fs := 0, active := true, value := 2 } 1 = true := by
+example : outlying witnessPts (999 : Rat) { ty := .distance, frm := 1, «to» := 2, fs := 0, active := true, value := 2 } 1 = true := by
   decide +kernel
-example : Scalar.beq (Scalar.ofNat 0 : Rat) (Scalar.ofNat 0) = true := by decide +kernel
+/-- an abs-term removal that leaves a station with one target: `exclude` silences the other direction too -/
+example : (exclude witnessNet 1000 [700000, 300000] witnessBh).cls.map (fun c => c.obs.map (·.active)) = [[false, false]] := by
+  decide +kernel
+/-- hypotheses of the field theorems are satisfiable: ℝ with `Real.sqrt`; weight factors 1/5 and 10 are positive -/
+example : ∀ x : ℝ, 0 ≤ x → Real.sqrt (x * x) = x := fun _ h => Real.sqrt_mul_self h
+example : (0 : Rat) < weightFactor 10 50 ∧ Spec.angular .direction = true ∧
+    (0 : Rat) < Spec.lever .direction (absCtx witnessPts witnessObs[0] 0) := by decide +kernel
+/-- an assembly step (here: count rows, collect the ids of the points looked up) -/
+example : assemble (σ := Nat × List Nat) (τ := Unit)
+    (fun st _ ps => ((st.1.1 + 1, st.1.2 ++ ps.filterMap (·.map (·.id))), ())) (fun _ => ()) (0, []) (revise exNet)
+    = (4, [1, 2, 1, 3, 1, 3, 3, 2]) := by decide
 
 end Gama.Props.C14
